@@ -22,6 +22,10 @@ var c16PlanQueries = [][2]string{
 		"SELECT DISTINCT x.c FROM (SELECT t.a, COUNT(*) AS c FROM t.sym t GROUP BY t.a) x"},
 	/* 5 */ {"SELECT x.c, COUNT(*) AS n FROM (SELECT t.a, COUNT(*) AS c FROM t.sym t GROUP BY t.a TRIGGER COUNTING 1) x GROUP BY x.c",
 		"SELECT x.c, COUNT(*) AS n FROM (SELECT t.a, COUNT(*) AS c FROM t.sym t GROUP BY t.a) x GROUP BY x.c"},
+	/* 6 */ {"SELECT y.c FROM (SELECT x.a, x.c FROM (SELECT t.a, COUNT(*) AS c FROM t.sym t GROUP BY t.a TRIGGER COUNTING 1) x ORDER BY x.c LIMIT 1) y",
+		"SELECT y.c FROM (SELECT x.a, x.c FROM (SELECT t.a, COUNT(*) AS c FROM t.sym t GROUP BY t.a) x ORDER BY x.c LIMIT 1) y"},
+	/* 7 */ {"SELECT y.c FROM (SELECT x.a, x.c FROM (SELECT t.a, COUNT(*) AS c FROM t.sym t GROUP BY t.a TRIGGER COUNTING 1) x ORDER BY x.c, x.a LIMIT 2) y",
+		"SELECT y.c FROM (SELECT x.a, x.c FROM (SELECT t.a, COUNT(*) AS c FROM t.sym t GROUP BY t.a) x ORDER BY x.c, x.a LIMIT 2) y"},
 }
 
 // VerifC16PlanTriggers: Q = catalogue index, ROWS = max rows, OPT = 1 optimised plan.
